@@ -18,6 +18,8 @@ CHECKS = {
          "Coverage is the Validate call graph only: Resolve, Unmarshal, ApplyDefaults, For/ForType, equalValue/hashValue bodies are swept but not yet fully discharged, so they are not claimed. Termination (no hang) is not proved. Validate's precondition wfRS (what Resolve establishes) is assumed, not yet proved of Resolve. One loop invariant of uniqueItems is on the trusted list (see evidence). " + BASE),
  "C11": ("Proved postconditions of equalValue for every pair of non-wrapper (not pointer/interface) JSON-shaped reflect.Values whose JSON views are scalars: two numbers are Equal exactly when their exact rational values coincide (every int/uint/float kind and json.Number, through jsonNumber's contract: no float rounding), booleans and strings by value, null only equals null, values of different JSON types are never Equal; plus all safety obligations of the array/map/pointer arms and of the recursion. Two defects found by these obligations were fixed (panic on maps with different string key types; json.Number equal to the string that spells it).",
          "Not yet proved: the array and object arms return the JSON-equality verdict (element-wise / unordered key-value sets), and values behind pointers/interfaces (pre-finding: interface-vs-concrete and array-vs-slice comparisons return false). Reflexivity/symmetry/transitivity follow from the oracle being = on the JSON view only where the postconditions are proved. " + BASE),
+ "C16": ("Isolation proof for forType/For/ForType: every store of a *Schema, []*Schema or map[string]*Schema into a Schema object (field store, whole-struct copy, slice element, map entry: 60 sites) carries the obligation that the stored value is nil or was allocated during the current call, and every heap write targets an object allocated during the call; with the contracts fresh(result) of CloneSchemas/falseSchema/recursive forType this shows the result tree shares no Schema object with TypeSchemas, the package-level type table or earlier results, and that For never mutates them. All safety obligations of forType (239) are discharged as well.",
+         "Not yet proved: that the result equals the documented translation table (properties = encoding/json field set, required, null for pointers, integer bounds) and determinism; termination for recursive types; CloneSchemas' own body (reflection) is used through its assumed contract fresh(result). " + BASE),
  "C18": ("Read-frame proof for the evaluator: every access to a field of Schema inside (*state).validate and in every closure nested in it (121 accesses) is an obligation stating that the field is not one of the non-asserting keywords (title, description, $comment, default, examples, deprecated, readOnly, writeOnly, format, contentEncoding, contentMediaType, contentSchema, $defs, definitions, Extra, PropertyOrder, $vocabulary); so the verdict cannot depend on them.",
          "Covers the evaluator's reads only. Helper functions reached from validate take no *Schema except through validate's own recursion. Not covered: that Resolve's result is unaffected by such keywords (an ill-formed unreferenced $defs entry does change Resolve's outcome), and Unmarshal's treatment of unknown keys (case-insensitive matching inherited from encoding/json is a known pre-finding, not yet under contract). " + BASE),
  "C13": ("Deductive proof, for every function on the Validate call path, that every heap store targets an object allocated during the current API call (obligation modifies@<component> at every Store/MapUpdate/append-target/callee frame), i.e. Validate never writes the Resolved, its side tables, the schema tree or process-wide state. This is the no-shared-mutable-state condition the property's mechanism names.",
@@ -35,7 +37,6 @@ NA = {
  "C09": "not yet claimed: depends on the forType contract (C04)",
  "C12": "not yet claimed: hashValue / uniqueItems contracts under construction",
  "C15": "not yet claimed: applyDefaults contract under construction",
- "C16": "not yet claimed: forType freshness/determinism contracts under construction",
  "C17": "not yet claimed: JSON pointer contracts under construction",
  "C19": "not yet claimed: orderedProperties contract under construction",
  "C20": "not yet claimed: CloneSchemas contract under construction",
